@@ -82,6 +82,42 @@ def currency_table(repo, unt):
     return {"rows": rows, "default": default, "commodity": commodity}
 
 
+def header_tags(repo, unt):
+    """Block-3 / block-5 tags that `parse` reads and that `Display` writes."""
+    out = {"b3_parse": [], "b3_display": [], "b5_parse": [], "b5_display": []}
+    try:
+        toks = lex(open(os.path.join(repo, "src/headers/mod.rs"), encoding="utf-8").read())
+        from rslex import find_impls
+        for hdr, bo, bc in find_impls(toks):
+            for ty, key in (("UserHeader", "b3"), ("Trailer", "b5")):
+                if hdr == ty:
+                    for _, fo, fc in find_fns(toks, "parse", bo, bc):
+                        lits = [t.text for t in toks[fo:fc] if t.kind == "str"]
+                        tags = []
+                        for l in lits:
+                            m = re.fullmatch(r"\{(\w+)[:}]", l)
+                            if m and m.group(1) not in tags:
+                                tags.append(m.group(1))
+                        out[key + "_parse"] = tags
+                elif hdr == f"std :: fmt :: Display for {ty}":
+                    for _, fo, fc in find_fns(toks, "fmt", bo, bc):
+                        lits = [t.text for t in toks[fo:fc] if t.kind == "str"]
+                        tags = []
+                        for l in lits:
+                            for m in re.finditer(r"\{\{?(\w+)[:}]", l):
+                                if m.group(1) not in tags and not m.group(1)[0].islower():
+                                    tags.append(m.group(1))
+                        out[key + "_display"] = tags
+        for k, v in out.items():
+            if not v:
+                raise Untranslatable("headers/mod.rs", f"no tags found for {k}")
+    except Untranslatable as e:
+        unt.append({"item": e.item, "why": e.why, "extractor": "T5"})
+    except Exception as e:
+        unt.append({"item": "header tags", "why": f"{type(e).__name__}: {e}", "extractor": "T5"})
+    return out
+
+
 def chars(s):
     return "[" + ", ".join("'" + c + "'" for c in s) + "]"
 
@@ -89,6 +125,7 @@ def chars(s):
 def generate(repo, unt):
     ds = date_sites(repo, unt)
     cur = currency_table(repo, unt)
+    ht = header_tags(repo, unt)
     L = ["namespace SwiftMT.Generated.Tables\n"]
     L.append("/-- (file, kind) of every place outside test code where a date/time value is built from numbers or a century is added. -/")
     L.append("def dateSites : List (String × String) := [" + ", ".join(f"({lean_str(a)}, {lean_str(b)})" for a, b in ds) + "]\n")
@@ -102,6 +139,11 @@ def generate(repo, unt):
     L.append("def currencyDecimals : List (List Char × Nat) := [" + ", ".join(f"({chars(c)}, {d})" for c, d in cur["rows"]) + "]")
     L.append(f"def currencyDefault : Nat := {cur['default']}")
     L.append("def commodityCurrencies : List (List Char) := [" + ", ".join(chars(c) for c in cur["commodity"]) + "]\n")
+    L.append("/-- block-3 tags read by `UserHeader::parse` / written by its `Display`; block-5 tags likewise (as characters). -/")
+    L.append("def block3Parsed : List Nat := [" + ", ".join(str(int(t)) for t in ht["b3_parse"] if t.isdigit()) + "]")
+    L.append("def block3Displayed : List Nat := [" + ", ".join(str(int(t)) for t in ht["b3_display"] if t.isdigit()) + "]")
+    L.append("def block5Parsed : List (List Char) := [" + ", ".join(chars(t) for t in ht["b5_parse"]) + "]")
+    L.append("def block5Displayed : List (List Char) := [" + ", ".join(chars(t) for t in ht["b5_display"]) + "]\n")
     L.append("def untranslated : List String := [" + ", ".join(lean_str(u["item"] + ": " + u["why"]) for u in unt if u["extractor"] == "T5") + "]\n")
     L.append("end SwiftMT.Generated.Tables")
-    return [("Tables", "\n".join(L) + "\n", {"date_sites": ds, "date_files": files, "currency": cur})]
+    return [("Tables", "\n".join(L) + "\n", {"date_sites": ds, "date_files": files, "currency": cur, "header_tags": ht})]
